@@ -305,14 +305,29 @@ Inductive op :=
 | Close (c : conn)          (* the client closes c *)
 | Wait (d : N).             (* nothing happens for d milliseconds *)
 
+(* What the harness input adds to an op: TRANSPORT DETAILS that the responses and
+   the listener must not depend on.  [TalkRR cs] is a Talk in which the listed
+   connections take turns call by call (call k of each, in list order, before
+   call k+1) instead of running concurrently; [i_shm] says which connections
+   ship their parameter batches through a shared-memory segment OF THEIR OWN
+   (advertised on the connection's first call, later requests are pointer
+   batches into it) instead of inline.  Each connection has its own reader,
+   writer and segment cache (serveUnixConn / serveTcpConn: shmConn is created
+   per connection), so the model maps both to the same run. *)
+Inductive iop := Plain (o : op) | TalkRR (cs : list conn).
+Definition norm_op (o : iop) : op := match o with Plain o => o | TalkRR cs => Talk cs end.
+
 Record input := {
   i_unix : bool;                          (* RunUnix (true) / RunTcp *)
   i_idle : N;                             (* idleTimeout in ms, 0 = none *)
   i_gate : bool;
   i_hook : list bool;                     (* serve-start hook script: verdict of its j-th invocation, true = it FAILS;
                                              past the end it succeeds; it is not invoked any more once it succeeded *)
+  i_shm : list bool;                      (* connection c uses a shm segment of its own (transport detail) *)
   i_conns : list (list C02.call);         (* connection c sends nth c *)
-  i_ops : list op }.
+  i_ops : list iop }.
+
+Definition ops_of (i : input) : list op := map norm_op (i_ops i).
 
 Record probe := {
   p_ok : bool;                            (* Open: the dial succeeded; Talk / Close: the connection was open *)
@@ -408,7 +423,7 @@ Fixpoint trun (i : input) (t : tstate) (ops : list op) : tstate * list probe :=
 Definition conn_ids (i : input) : list conn := seq 0 (length (i_conns i)).
 
 Definition model (i : input) : obs :=
-  let '(t, ps) := trun i (tinit i) (i_ops i) in
+  let '(t, ps) := trun i (tinit i) (ops_of i) in
   {| o_probes := ps;
      o_views := map (out_of (t_s t)) (conn_ids i);
      o_alone := map (fun c => if mem c (t_talked t) then C02.run_conn (i_gate i) (nth c (i_conns i) []) else [])
@@ -510,6 +525,6 @@ Definition probe_safe (a e : probe) : bool :=
 
 Definition spec_ok (i : input) (o : obs) : bool :=
   Nat.eqb (length (o_probes o)) (length (i_ops i))
-  && list_eqb probe_safe (o_probes o) (mrun i (minit i) (i_ops i))
+  && list_eqb probe_safe (o_probes o) (mrun i (minit i) (ops_of i))
   && (negb (all_in_scope i) || list_eqb streams_eqb (o_views o) (o_alone o))
   && Nat.eqb (length (o_views o)) (length (i_conns i)).
